@@ -476,18 +476,48 @@ def run(ctx):
             sv = np.linalg.svd(D, compute_uv=False)
             if sv.min() < 0.2 or sv.max() / sv.min() > 60:
                 continue
+        herm, chain = None, None
+        if not big and rnd.random() < 0.12:
+            m, n, sv, D, herm = hermitian_variant(rnd, g, nmax, cplx)       # declared SelfAdjoint / PSD, indefinite included
+            bump(hist, "pinv:annotated:" + herm)
+        elif not big and rnd.random() < 0.15:
+            # a Product whose factors change the inner dimension (wide @ tall, tall @ tall, wide @ wide, three factors): pinv of the
+            # product is NOT the reversed product of the factors' pseudo-inverses; inner dimensions >= min(m, n) keep the product of full rank
+            for _ in range(50):
+                nf = rnd.choice([2, 2, 3])
+                m, n = rnd.randint(1, nmax), rnd.randint(1, nmax)
+                inner = [rnd.randint(min(m, n), nmax + 1) for _ in range(nf - 1)]
+                dims = [m] + inner + [n]
+                chain = [g.standard_normal((dims[i], dims[i + 1])) + (1j * g.standard_normal((dims[i], dims[i + 1])) if cplx else 0) for i in range(nf)]
+                D = chain[0]
+                for Fm in chain[1:]:
+                    D = D @ Fm
+                sv = np.linalg.svd(D, compute_uv=False)
+                if sv.min() > 0 and sv.max() / sv.min() < 60 and any(d != m for d in inner):
+                    break
+            else:
+                chain = None
+            if chain is not None:
+                bump(hist, "pinv:product_chain:" + "x".join(str(d) for d in dims))
         scl = 1.0
-        if rnd.random() < 0.6:
+        if chain is None and rnd.random() < 0.6:
             scl = 10.0 ** (rnd.uniform(-3, 3) if f32 else rnd.uniform(-8, 8))
             D, sv = D * scl, sv * scl
         colspread = 0
-        if not algn.startswith("CG") and not f32 and rnd.random() < (0.6 if m < n else 0.25):
+        if chain is None and herm is None and not algn.startswith("CG") and not f32 and rnd.random() < (0.6 if m < n else 0.25):
             # badly scaled columns (norms spread over up to 10 decades): the minimum-norm clause is about the ORIGINAL variables
             colspread = rnd.choice([1, 1, 2, 3, 5])
             D = D * (10.0 ** np.array([rnd.uniform(-colspread, colspread) for _ in range(n)]))[None, :]
             sv = np.linalg.svd(D, compute_uv=False)
         dt = ("complex64" if f32 else "complex128") if cplx else ("float32" if f32 else "float64")
-        wname, A = wrap(rnd, g, D, dt, plain=(scl != 1.0 or big or colspread > 0))
+        if chain is not None:
+            from cola import ops as _o
+            wname = "ProductChain"
+            A = _o.Dense(chain[0].astype(getattr(np, dt)))
+            for Fm in chain[1:]:
+                A = A @ _o.Dense(Fm.astype(getattr(np, dt)))
+        else:
+            wname, A = wrap(rnd, g, D, dt, plain=(scl != 1.0 or big or colspread > 0), herm=herm)
         Dd = np.asarray(A.to_dense()).astype(np.complex128)
         k = rnd.choice([1, 2, 3])
         B = (g.standard_normal((m, k)) + (1j * g.standard_normal((m, k)) if cplx else 0)).astype(getattr(np, dt))
